@@ -438,3 +438,37 @@ func Queries() Spec {
 	return Spec{Name: "queries", Seeds: []explore.Seed{prepared, fresh, prefix, weak, sparse}, Events: evs,
 		DepthQuick: 3, DepthThor: 4, ExpectFail: exp, MinStates: 40}
 }
+
+// QueriesMany (C17): sub-lists with more than 100 elements — the default page limit of an un-paginated ORM listing —
+// inside answers that carry NO pagination: the allowed classes of one basket (Query/Basket), the allowed class
+// creators / denoms of the aggregate Params query, the issuers of one class. 101 of each.
+func QueriesMany() Spec {
+	seed := explore.Seed{Name: "101-classes-in-a-basket,101-creators,101-issuers", Build: func(c *chain.Chain) sdk.Context {
+		ctx := c.BaseContext(chain.T0, 1)
+		c.InitGenesis(ctx, chain.Genesis{Balances: StdFunds()})
+		acts := GovBaseline()
+		var classes, many []string
+		for i := 0; i < 101; i++ {
+			classes = append(classes, fmt.Sprintf("C%02d", i+1))
+			a := make([]byte, 20)
+			copy(a, fmt.Sprintf("many-%03d------------", i))
+			many = append(many, sdk.AccAddress(a).String())
+		}
+		for range classes {
+			acts = append(acts, Msg("seed:class", &basetypes.MsgCreateClass{Admin: A.String(), Issuers: []string{A.String()}, Metadata: "m", CreditTypeAbbrev: "C", Fee: pcoin("uregen", 20)}))
+		}
+		acts = append(acts,
+			Msg("seed:basket BIG (101 classes)", &baskettypes.MsgCreate{Curator: A.String(), Name: "BIG", DisableAutoRetire: true, CreditTypeAbbrev: "C", AllowedClasses: classes, Fee: sdk.NewCoins(coin("uregen", 10))}),
+			Msg("seed:101 issuers of C01", &basetypes.MsgUpdateClassIssuers{Admin: A.String(), ClassId: "C01", AddIssuers: many}),
+		)
+		for _, m := range many {
+			acts = append(acts, Msg("seed:creator", &basetypes.MsgAddClassCreator{Authority: G.String(), Creator: m}))
+		}
+		return mustRun(c, ctx, acts...)
+	}}
+	evs := []E{
+		fix(Msg("gov:allowlist-on", &basetypes.MsgSetClassCreatorAllowlist{Authority: G.String(), Enabled: true})),
+		fix(Msg("basket.Create(A,SMALL,[C01,C101])", &baskettypes.MsgCreate{Curator: A.String(), Name: "SMALL", DisableAutoRetire: true, CreditTypeAbbrev: "C", AllowedClasses: []string{"C01", "C101"}, Fee: sdk.NewCoins(coin("uregen", 10))})),
+	}
+	return Spec{Name: "queries-many", Seeds: []explore.Seed{seed}, Events: evs, DepthQuick: 1, DepthThor: 2, MinStates: 2}
+}
